@@ -124,8 +124,8 @@ def ring_systems(draw):
                 kind[a] = 'co'
             elif c == 'n+':
                 elem[a], charge[a], kind[a] = 'N', 1, 'n+'
-            elif c == 'o+':
-                elem[a], charge[a] = 'O', 1
+            elif c in ('o+', 's+'):
+                elem[a], charge[a] = c[0].upper(), 1
     sp2 = [a for a in atoms if kind[a] in ('c', 'n+')]
     ms = _matching(sp2, adj, limit=1)
     if not ms:
